@@ -17,6 +17,7 @@ import (
 	"sort"
 	"strconv"
 	"strings"
+	"sync/atomic"
 	"time"
 
 	sdkmath "cosmossdk.io/math"
@@ -355,6 +356,8 @@ func genPure(rng *sim.Rng) pureVec {
 	return v
 }
 
+var pureSamples atomic.Int32
+
 type pureEnv struct {
 	ctx sdk.Context
 	k   feedskeeper.Keeper
@@ -485,8 +488,11 @@ func checkPure(run *sim.Run, env *pureEnv, idx int, distinct bool) {
 	if distinct {
 		run.Distinct(fmt.Sprintf("pure|%s|%v", v.Quorum, dumpInfos(v.Infos)))
 	}
-	if idx < 2 {
-		run.Sample(caseData())
+	if idx < 400 && wantSt == ref.PriceAvailable && len(v.Infos) >= 3 && len(v.Infos) <= 7 && d.Median.Available >= 3 &&
+		pureSamples.Add(1) <= 2 {
+		cd := caseData().(map[string]any)
+		cd["published"] = fmt.Sprintf("%s price=%d (reference %d)", shortStatus(got.Status), got.Price, wantPrice)
+		run.Sample(cd)
 	}
 }
 
@@ -622,17 +628,6 @@ func (c *chain) add(signer *sim.Account, m txMeta, msg sdk.Msg) {
 	c.txs = append(c.txs, c.w.SignTx(signer, msg))
 	c.metas = append(c.metas, m)
 	c.log("%s", m.desc)
-}
-
-func (c *chain) authority(msg sdk.Msg) error {
-	_, err := c.w.Authority(msg)
-	if c.w2 != nil {
-		_, err2 := c.w2.Authority(msg)
-		if (err == nil) != (err2 == nil) {
-			c.violate("chain:replica-authority-diverged", fmt.Sprintf("authority msg result differs between replicas: %v vs %v", err, err2))
-		}
-	}
-	return err
 }
 
 func parseDec(s string) *big.Rat {
@@ -1423,7 +1418,7 @@ func main() {
 
 	// layer (a)
 	w, e := env()
-	nPure := run.N(250_000, 20_000_000)
+	nPure := run.N(250_000, 12_000_000)
 	const batch = 1000
 	sim.Parallel((nPure+batch-1)/batch, 16, func(b int) {
 		for i := b * batch; i < (b+1)*batch && i < nPure; i++ {
@@ -1439,7 +1434,7 @@ func main() {
 	w.Close()
 
 	// layer (b)
-	nHist := run.N(80, 2500)
+	nHist := run.N(80, 2000)
 	sim.Parallel(nHist, 16, func(i int) { runHistory(run, i) })
 
 	for _, cnt := range []string{
